@@ -40,7 +40,7 @@ func TestConcurrentStreams(t *testing.T) {
 	}
 	bin, diag, err := sess.BuildHarness(out.Run, true)
 	if err != nil {
-		t.Fatalf("INCONCLUSIVE harness: %v %s", err, diag)
+		t.Fatalf("INCONCLUSIVE: harness: %v %s", err, diag)
 	}
 	s := d.Services[0]
 	var streaming []*m.Method
